@@ -89,6 +89,24 @@ def run(ctx):
                 ninj = rng.randrange(0, 4)
                 inj = [(rng.randrange(nmax), rng.choice(bad_vals + ok_vals + ok_vals)) for _ in range(ninj)]
                 creq.append(((seed, feat, nb), kind, ar, rng.choice([0, 1, 2, 100]), rng.randrange(0, 9), inj))
+    # sleep models: (ntree, mask of trees initialised asleep, shape bits); sleeping trees in front of awake ones first
+    sleepcfg = [(2, 1, 0), (3, 1, 2), (3, 3, 4), (4, 5, 10), (3, 4, 1), (2, 2, 1), (3, 7, 0), (4, 9, 6)]
+    if not quick:
+        sleepcfg += [(nt, mk, rng.randrange(1 << nt)) for nt in (2, 3, 4, 5) for mk in range(1, 1 << nt, 3)]
+    else:
+        sleepcfg = sleepcfg[:5]
+    for (nt, mk, sh) in sleepcfg:
+        mo = ("sleep", nt, mk, sh)
+        for kind in range(3):
+            nmax = 7 * nt
+            for idx in range(nmax):
+                ars = (1, 0) if not quick else ((idx + kind) % 2,)
+                for ar in ars:
+                    creq.append((mo, kind, ar, rng.choice([0, 0, 1, 5]), rng.randrange(0, 9), [(idx, bad_vals[(idx + kind + ar) % len(bad_vals)])]))
+            for rep_ in range(4 if quick else 20):
+                ninj = rng.randrange(0, 4)
+                inj = [(rng.randrange(nmax), rng.choice(bad_vals + ok_vals)) for _ in range(ninj)]
+                creq.append((mo, kind, rng.randrange(2), rng.choice([0, 1, 2, 100]), rng.randrange(0, 9), inj))
     sreq = []   # (model, integrator, autoreset, where, idx, value, nsteps)
     # fixed regression inputs of the three recorded input classes (see KNOWN_FINDINGS / report)
     sreq.append(((528887, 500, 5), 3, 1, 4, 21, float("nan"), 1))          # NaN ctrl, implicitfast
@@ -103,12 +121,20 @@ def run(ctx):
                     for ar in (1, 0):
                         v = rng.choice(bad_vals + [9e9, -9.9e9, 1e10])
                         sreq.append(((seed, feat, nb), integ, ar, where, idx, v, rng.choice([1, 1, 2, 3])))
+    for (nt, mk, sh) in sleepcfg:
+        mo = ("sleep", nt, mk, sh)
+        for integ in (0, 1, 2, 3):
+            for where in range(4):
+                for j in range(2 if quick else 6):
+                    for ar in ((1,) if quick and j else (1, 0)):
+                        v = rng.choice(bad_vals + ([1e30, -1e30] if where >= 2 else [9e9]))
+                        sreq.append((mo, integ, ar, where, rng.randrange(0, 40), v, rng.choice([1, 1, 2])))
     inp = ["M", "B %d %s" % (len(pats), " ".join("%x" % p for p in pats))]
     for (mo, kind, ar, pn, pl, inj) in creq:
-        inp.append("C %d %d %d %d %d %d %d %d %s" % (mo[0], mo[1], mo[2], kind, ar, pn, pl, len(inj),
-                                                      " ".join("%d %x" % (i, bits(v)) for i, v in inj)))
+        inp.append("%s %d %d %d %d %d %d %d %d %s" % ("Z" if mo[0] == "sleep" else "C", mo[-3], mo[-2], mo[-1], kind, ar, pn, pl, len(inj),
+                                                       " ".join("%d %x" % (i, bits(v)) for i, v in inj)))
     for (mo, integ, ar, where, idx, v, ns) in sreq:
-        inp.append("S %d %d %d %d %d %d %d %x %d" % (mo[0], mo[1], mo[2], integ, ar, where, idx, bits(v), ns))
+        inp.append("%s %d %d %d %d %d %d %d %x %d" % ("T" if mo[0] == "sleep" else "S", mo[-3], mo[-2], mo[-1], integ, ar, where, idx, bits(v), ns))
     rc, out, err = ctx.run(exe, "\n".join(inp) + "\n", timeout=900)
     lines = out.split("\n")
     if rc != 0 or len(lines) < len(inp):
@@ -140,24 +166,33 @@ def run(ctx):
     # ------------------------------------------------------------------ check functions
     coq_c = []
     creq_kept = []
+    nsleepfilt = 0
     nontriv = set()
     kinds = ["mj_checkPos", "mj_checkVel", "mj_checkAcc"]
     for k, (mo, kind, ar, pn, pl, inj) in enumerate(creq):
         line = lines[2 + k]
-        case = {"op": kinds[kind], "model": {"seed": mo[0], "feat": mo[1], "nbody": mo[2]}, "autoreset": ar,
+        mdesc = ({"sleep_model": {"ntree": mo[1], "asleep_mask": mo[2], "shape": mo[3]}} if mo[0] == "sleep" else
+                 {"seed": mo[0], "feat": mo[1], "nbody": mo[2]})
+        case = {"op": kinds[kind], "model": mdesc, "autoreset": ar,
                 "pre": [pn, pl], "inject": [[i, "%016x" % bits(v)] for i, v in inj]}
         parts = line.split("|")
         if line.startswith("ERR") or len(parts) != 4 or "ERR" in parts[3]:
             ctx.broken.append(("correspondence", "driver reply unusable", line[:200] + " for " + str(case)))
             continue
-        vt = parts[0].split()
+        vpart, _, ipart = parts[0].partition(";")
+        vt = vpart.split()
         n = int(vt[0])
         vec = [unbits(int(t, 16)) for t in vt[1:]]
+        ind = list(map(int, ipart.split()))[1:] if ipart.strip() else None      # loop order reported by the driver (sleep filter)
+        if ind is not None and len(ind) < n:
+            nsleepfilt += 1
         num, last = map(int, parts[1].split())
         bnum, blast = map(int, parts[2].split())
         cls = parts[3].strip()
-        first = next((i for i, x in enumerate(vec) if py_bad(x)), None)
+        first = next((i for i in (range(n) if ind is None else ind) if py_bad(vec[i])), None)
         sig = {"site": kinds[kind], "autoreset": ar}
+        if ind is not None and len(ind) < n:
+            sig["sleep_filter"] = 1
         if first is None:
             if not (cls == "U" and (num, last) == (pn, pl)):
                 ctx.violation("impl_violation", case, expected="no bad value: data and warnings unchanged", observed=line[-60:], signature=sig, theorem="C30_check")
@@ -168,14 +203,14 @@ def run(ctx):
                               observed="number=%d lastinfo=%d class=%s" % (num, last, cls), signature=sig, theorem="C30_check")
             nontriv.add((mo, kind, ar, first, bits(vec[first])))
         found = "true" if (cls != "U" or (num, last) != (pn, pl)) else "false"
-        coq_c.append("(%s, %s, %d, %d, (%s, %d, %s, %s))" % ("true" if ar else "false", F.flist(vec), pn, pl, found, num,
+        coq_c.append("(%s, %s, %s, %d, %d, (%s, %d, %s, %s))" % ("true" if ar else "false", F.flist(vec), "(@None (list Z))" if ind is None else "(Some %s)" % F.zlist(ind), pn, pl, found, num,
                                                              ("(%d)" % last) if last < 0 else str(last), "true" if cls == "R" else "false"))
         creq_kept.append((case, line))
         if cls == "X":
             ctx.violation("correspondence", case, expected="data unchanged or equal to reset data", observed=line[-60:], found_input=False,
                           theorem="correspondence " + kinds[kind])
-    checker = ("fun c => match c with (ar, v, n0, l0, (f, n1, l1, r)) => "
-               "match check_summary ar (entries_all v) n0 l0 with (f', n', l', r') => "
+    checker = ("fun c => match c with (ar, v, ind, n0, l0, (f, n1, l1, r)) => "
+               "match check_summary ar (match ind with None => entries_all v | Some l => entries_ind v l end) n0 l0 with (f', n', l', r') => "
                "Bool.eqb f f' && (n1 =? n')%Z && (l1 =? l')%Z && Bool.eqb r r' end end")
     fails = ctx.coq_eval("c30_check", "From Coq Require Import ZArith Bool PrimFloat.\nFrom MJV Require Import Model.Checks.\nOpen Scope Z_scope.",
                          coq_c, checker, shard=200)
@@ -186,6 +221,7 @@ def run(ctx):
     # ------------------------------------------------------------------ mj_step oracle
     wnames = ["qpos", "qvel", "qfrc_applied", "xfrc_applied", "ctrl", "act", "none"]
     nstep_bad = 0
+    nsleepstep = 0
     nerr_noreset = 0
     byclass = {}
     firstcase = {}
@@ -198,16 +234,22 @@ def run(ctx):
         return _viol(kind, case, **kw)
     for k, (mo, integ, ar, where, idx, v, ns) in enumerate(sreq):
         line = lines[2 + len(creq) + k]
-        case = {"op": "mj_step", "model": {"seed": mo[0], "feat": mo[1], "nbody": mo[2]}, "integrator": integ, "autoreset": ar,
+        issleep = mo[0] == "sleep"
+        mdesc = ({"sleep_model": {"ntree": mo[1], "asleep_mask": mo[2], "shape": mo[3]}, "index_is": "k-th awake dof"} if issleep else
+                 {"seed": mo[0], "feat": mo[1], "nbody": mo[2]})
+        case = {"op": "mj_step", "model": mdesc, "integrator": integ, "autoreset": ar,
                 "inject": wnames[where], "index": idx, "value_bits": "%016x" % bits(v), "nsteps": ns}
         t = line.split()
-        if line.startswith("ERR") or len(t) != 6 + 14:
+        if line.startswith("ERR") or len(t) != 6 + 14 + (3 if issleep else 0):
             ctx.broken.append(("correspondence", "driver reply unusable", line[:200] + " for " + str(case)))
             continue
         errf, fin = int(t[0]), int(t[1])
         time, h, n = unbits(int(t[2], 16)), unbits(int(t[3], 16)), int(t[4])
         w = [(int(t[5 + 2 * j]), int(t[6 + 2 * j])) for j in range(7)]
         nidx = int(t[19])
+        if issleep:
+            case["nv"], case["nv_awake"], case["dof"] = int(t[20]), int(t[21]), int(t[22])
+            nsleepstep += int(t[21]) < int(t[20])
         vclass = "nan" if v != v else "inf" if abs(v) == math.inf else "over-limit" if abs(v) > MAXVAL else "within-limit"
         finite_v = v == v and abs(v) != math.inf
         if where == 5 and not finite_v:
@@ -249,11 +291,13 @@ def run(ctx):
     ctx.cov["distinct_nontrivial"] = len(nontriv) + nb_bad
     ctx.cov["rule"] = ("mju_isBad: fixed boundary bit patterns + random (uniform bits, +-2000 ulp around mjMAXVAL, log-uniform magnitudes 1e8..1e12, NaN payloads); "
                        "check functions: for each of %d generated models and each kind, a bad value at every index in turn with autoreset on/off, plus random multi-injections; "
-                       "mj_step: every integrator x injection site x autoreset; non-trivial = distinct (model, kind, autoreset, first bad index, value) with a bad value detected, plus bad bit patterns" % nmod)
+                       "sleep models (mjENBL_SLEEP, trees initialised asleep in front of / behind awake ones, free bodies and slide+hinge+ball chains): same check-function injections with the loop order taken from dof_awake_ind, and mj_step with injections at awake dofs; mj_step: every integrator x injection site x autoreset; non-trivial = distinct (model, kind, autoreset, first bad index, value) with a bad value detected, plus bad bit patterns" % nmod)
     ctx.cov["samples"] = [creq_kept[0][0] if creq_kept else None, creq_kept[-1][0] if creq_kept else None,
                           {"op": "mju_isBad", "bits": "%016x" % pats[1]}]
     ctx.cov["correspondence_disagreements"] = ncorr
     ctx.cov["support"]["step_cases"] = len(sreq)
+    ctx.cov["support"]["check_calls_with_active_sleep_filter"] = nsleepfilt
+    ctx.cov["support"]["step_cases_with_sleeping_trees"] = nsleepstep
     ctx.cov["support"]["step_mju_error_with_autoreset_disabled"] = nerr_noreset
     ctx.cov["support"]["step_oracle_failures_by_class"] = byclass
     ctx.cov["support"]["step_oracle_first_case"] = firstcase
